@@ -154,6 +154,8 @@ var c10Stmts = []string{
 	`{ new := func() int { return 0 }; _ = new(); make := func(a, b int) *Q.T { return nil }; make(1, 2).F = 1; { new := func(a, b int) int { return a }; _ = new(1, 2) } }`,
 	`{ x := Q.New(); switch x.F = 1; x.F { case 1: x.F = 2; fallthrough; default: x.F++ }; if x.F = 3; x.F > 0 { x.F = 4 } else if x.M = 1; true { x.F = 5 } else { x.F = 6 } }`,
 	`{ type E = error; var e E; _ = e; type E2 = E; var e2 E2 = nil; _ = e2; type E3 error; var e3 E3; _ = e3; _ = []error{nil}; _ = map[error]E{}; _ = struct{ error }{}; var f func(error) E; _ = f; _ = new(error); _ = new(E); _ = (*error)(nil); _ = error(nil); _ = E(nil); fn := error.Error; _ = fn; type A = any; _ = A(1); _ = new(A); _ = []A{1}; type CA = comparable; type CI interface{ comparable; error }; var x Q.T; x.F = 1 }`,
+	`{ type W struct{ Q.T }; type RefA = *W; type RefD *W; var a RefA = &W{}; a.F = 1; a.S[0]++; var dd RefD = &W{}; dd.F++; dd.S[0] = 1; dd.M += 2; type W2 struct{ RefA }; var w2 W2; w2.F = 3; type W3 struct{ *W2 }; w3 := W3{&w2}; w3.F--; w3.Mp["k"] = 1 }`,
+	`{ type PT = *Q.T; type DP *Q.T; var p PT = Q.New(); p.F = 1; var q DP = Q.New(); q.F++; (*q).S[0] = 2; type PP = *PT; var pp PP = &p; (*pp).F = 3; (**pp).M = 4 }`,
 	`{ _ = len("a"); _ = cap([]int{}); _ = min(1, 2); _ = max(1, 2); _ = real(1i); _ = complex(1, 2); print(); println(); _ = recover(); defer panic(nil); _ = nil == error(nil); _ = true; const c = iota; _ = c; type B = byte; type R = rune; _ = B(1) == 2; _ = R(1) == 2; _ = []B("a"); _ = new(B); var s string; _ = s; _ = Q.T{F: len(s)}; _ = new(Q.T) }`,
 }
 
